@@ -14,7 +14,7 @@ from .. import world as W
 from .. import scen as S
 from .. import ianasuite
 from .. import refrecord
-from ..core import pmap
+from ..core import pmap, room
 from tlslite import errors as E
 from tlslite.constants import AlertDescription as AD
 
@@ -169,7 +169,7 @@ def case(item):
     info = S.ALL_INFOS[sid]
     name = "%s/%s%s" % (S.VNAME[v], info.name, "" if etm else "/noetm")
     rec = {"name": name, "n": 0, "fails": [], "sigs": set(), "known": 0,
-           "by_class": {}}
+           "by_class": {}, "pc": {}}
     base0 = setup(v, sid, etm, seed)
     if base0 is None:
         rec["fails"].append(({"fault": "setup"}, "handshake failed"))
@@ -185,7 +185,7 @@ def case(item):
         rec["by_class"][cls] = rec["by_class"].get(cls, 0) + 1
         rec["sigs"].add((cls, obs["result"][:3]))
         for f in fails:
-            if len(rec["fails"]) < 40:
+            if room(rec["pc"], (cls, f[:30]), 6):
                 k = dict(key)
                 k["class"] = cls
                 rec["fails"].append((k, f))
